@@ -140,6 +140,11 @@ func makeData(name enc.Name, content []byte, fb *enc.Component) ndn.Data {
 }
 
 type fetchCase struct {
+	// misbehaving producer: 1 no FinalBlockId on the first segment; 2 FinalBlockId of another component type;
+	// 3..7 FinalBlockId = 1e8, 2^32, 2^63-1, 2^63, 2^64-1 (rejected segment counts, int overflow); 8 FinalBlockId that
+	// changes between segments; 9 FinalBlockId smaller than a segment delivered later; 10 metadata naming a version
+	// that does not exist
+	bad     int
 	starved *pubObject
 	o       *out
 	eng     *fakeEngine
@@ -250,12 +255,15 @@ func TestFetchTrace(t *testing.T) {
 	for i := 0; i < n; i++ {
 		starve := i%6 == 1
 		fc := runFetchCaseOpt{starve: starve, sendFault: i%6 == 3, bigSegs: 0}
+		if i%6 == 5 {
+			fc.badProducer = (i/6)%10 + 1 // every misbehaviour of the producer in turn
+		}
 		if i%20 == 2 {
 			fc.bigSegs = 70 // more segments than any plausible queue capacity below the window
 		} else if i%20 == 12 {
 			fc.bigSegs = 120
 		}
-		fc.adversarial = !starve && !fc.sendFault && fc.bigSegs == 0 && r.Intn(8) == 0
+		fc.adversarial = !starve && !fc.sendFault && fc.bigSegs == 0 && fc.badProducer == 0 && r.Intn(8) == 0
 		runFetchCase(o, r, fc)
 	}
 }
@@ -275,6 +283,7 @@ func resultLine(xid int, kind string, d ndn.Data, meta string) string {
 // of its remaining segments is lost on every transmission; the second consumer is started while the window is full.
 type runFetchCaseOpt struct {
 	adversarial, starve, sendFault bool
+	badProducer                    int // 0 = honest; 1.. = see badFinalBlock / deliver
 	bigSegs                        int
 }
 
@@ -297,6 +306,9 @@ func runFetchCase(o *out, r *rand.Rand, opt runFetchCaseOpt) {
 		}
 		if opt.bigSegs > 0 && i == 0 {
 			nseg = opt.bigSegs
+		}
+		if opt.badProducer > 0 && i == 0 {
+			nseg = 6 + r.Intn(4)
 		}
 		if starve && i == 0 {
 			nseg = 12 + r.Intn(10)
@@ -330,6 +342,10 @@ func runFetchCase(o *out, r *rand.Rand, opt runFetchCaseOpt) {
 	}
 	if opt.bigSegs > 0 {
 		lossy = false
+	}
+	if opt.badProducer > 0 {
+		lossy = false
+		fc.bad = opt.badProducer
 	}
 	if opt.sendFault {
 		// the face refuses to send chosen Interests: the metadata Interest, the first segment, or one mid-stream;
@@ -410,6 +426,13 @@ func runFetchCase(o *out, r *rand.Rand, opt runFetchCaseOpt) {
 			if starve {
 				po = objs[consumes]
 				pick = 0
+			}
+			if fc.bad > 0 {
+				po = objs[0]
+				pick = 0
+				if fc.bad == 10 {
+					pick = 3
+				}
 			}
 			switch pick {
 			case 0, 1, 2:
@@ -539,6 +562,9 @@ func (fc *fetchCase) deliver(p *pendingX, lossy, adversarial bool) {
 		inner := best.base
 		var content []byte
 		metaStr := ""
+		if fc.bad == 10 {
+			inner = append(append(enc.Name{}, objName...), enc.NewVersionComponent(best.base[len(best.base)-1].NumberVal()+12345))
+		}
 		if adversarial && r.Intn(3) == 0 {
 			switch r.Intn(3) {
 			case 0: // does not parse
@@ -581,6 +607,25 @@ func (fc *fetchCase) deliver(p *pendingX, lossy, adversarial bool) {
 			fbp := &fb
 			content := po.segs[k]
 			dn := name
+			switch {
+			case fc.bad == 1 && k == 0:
+				fbp = nil
+			case fc.bad == 2 && k == 0:
+				f2 := enc.NewVersionComponent(uint64(len(po.segs) - 1))
+				fbp = &f2
+			case fc.bad >= 3 && fc.bad <= 7 && k == 0:
+				f2 := enc.NewSegmentComponent([]uint64{100000000, 1 << 32, 1<<63 - 1, 1 << 63, 1<<64 - 1}[fc.bad-3])
+				fbp = &f2
+			case fc.bad == 8 && k > 0:
+				f2 := enc.NewSegmentComponent(uint64((k * 7) % 11)) // differs from segment to segment; only the first counts
+				fbp = &f2
+			case fc.bad == 9:
+				f2 := enc.NewSegmentComponent(2) // claims 3 segments
+				fbp = &f2
+				if k == 1 {
+					dn = append(append(enc.Name{}, name[:len(name)-1]...), enc.NewSegmentComponent(4)) // beyond the claimed count
+				}
+			}
 			if adversarial && r.Intn(4) == 0 {
 				switch r.Intn(6) {
 				case 0:
